@@ -476,3 +476,250 @@ Proof.
       * destruct IH as (cs' & ln4 & E4). rewrite E4. eexists _, ln4. reflexivity.
     + destruct Hp as [ln1 E]. rewrite E. eexists _, ln1. reflexivity.
 Qed.
+
+(* ---- zero-terminated atom lists (compute statement, external section) ---- *)
+Definition nfw (l : list num) (w : list Z) : list Z := match l with [] => w | a :: _ => fst a end.
+Definition nbody (l : list num) (w : list Z) : list Z :=
+  match l with
+  | [] => [48]
+  | a :: l' => print_nat (snd a) ++ r_nums l' ++ r_zero w
+  end.
+Fixpoint nums_in_ok (l : list num) (w : list Z) : bool :=
+  match l with
+  | [] => true
+  | a :: l' => (1 <=? snd a) && sep_ok (nfw l' w) && nums_in_ok l' w
+  end.
+Lemma nums_text l w : r_nums l ++ r_zero w = nfw l w ++ nbody l w.
+Proof.
+  destruct l as [|a l]; [reflexivity|]. unfold r_nums. cbn [flat_map nfw nbody]. unfold r_num at 1. rewrite <- !app_assoc. reflexivity.
+Qed.
+Lemma atoms_ok_in a l w : atoms_ok a l = true -> end_ok (a && isnil l) w = true ->
+  nums_in_ok l w = true /\ (if a then nl_ok (nfw l w) else sep_ok (nfw l w)) = true.
+Proof.
+  revert a. induction l as [|x l IH]; intros a H Hw.
+  - cbn [nums_in_ok nfw]. cbn [isnil] in Hw. rewrite andb_true_r in Hw. split; [reflexivity|]. destruct a; exact Hw.
+  - cbn [atoms_ok] in H. bsplit. cbn [nums_in_ok nfw]. cbn [isnil] in Hw. rewrite andb_false_r in Hw.
+    destruct (IH false ltac:(assumption) ltac:(exact Hw)) as [Hi Hf]. cbn iota in Hf.
+    rewrite H2, Hi, Hf. split; [reflexivity | assumption].
+Qed.
+
+Lemma nbody_nonws l w r : nums_in_ok l w = true -> nonws_hd (nbody l w ++ r).
+Proof.
+  destruct l as [|a l]; cbn [nbody app]; [reflexivity|]. cbn [nums_in_ok]. intros H. bsplit.
+  rewrite <- app_assoc. apply hd_nonws_digits. lia.
+Qed.
+Lemma nonws_delim x : nonws_hd x -> forall c, True. Proof. auto. Qed.
+
+Lemma tlist_spec (rd : nat -> ast -> cres ast) (max : Z) (mk : Z -> call) :
+  max = atomMax ->
+  (forall fu s, rd (S fu) s =
+     match m_pos max s with
+     | Ok (v, s1) => if v =? 0 then ([], Ok s1) else let '(cs, r) := rd fu s1 in (mk v :: cs, r)
+     | Err l => ([], Err l)
+     | Fuel => ([], Fuel)
+     end) ->
+  forall l fuel w0 w r ln, (length l < fuel)%nat -> ws_ok w0 = true -> nums_in_ok l w = true -> delim r ->
+  cspec (forallb atom_in l) (rd fuel (amk (w0 ++ nbody l w ++ r) ln)) (map (fun a => mk (snd a)) l) r.
+Proof.
+  intros -> Hrd. induction l as [|a l IH]; intros fuel w0 w r ln Hfu Hw0 Hin Hr; (destruct fuel as [|fu]; [cbn in Hfu; lia|]); rewrite Hrd.
+  - cbn [nbody forallb map].
+    assert (Hp : spec2 (0 <=? atomMax) (m_pos atomMax (amk (w0 ++ print_nat 0 ++ r) ln)) 0 r).
+    { apply m_pos_spec'; [unfold atomMax, INT64_MAX; lia | assumption | lia | assumption]. }
+    change (print_nat 0) with [48] in Hp. destruct Hp as [ln1 E]. rewrite E.
+    change (0 =? 0) with true. cbv iota. exists ln1. reflexivity.
+  - cbn [nums_in_ok] in Hin. bsplit. cbn [nbody forallb map]. rewrite <- !app_assoc.
+    assert (Hp : spec2 (snd a <=? atomMax) (m_pos atomMax (amk (w0 ++ print_nat (snd a) ++ r_nums l ++ r_zero w ++ r) ln))
+                   (snd a) (r_nums l ++ r_zero w ++ r)).
+    { apply m_pos_spec'; [unfold atomMax, INT64_MAX; lia | assumption | lia |].
+      rewrite app_assoc, nums_text, <- app_assoc. now apply delim_sep. }
+    unfold atom_in at 1. assert (E1 : (1 <=? snd a) = true) by lia. rewrite E1. cbn [andb].
+    destruct (snd a <=? atomMax) eqn:Emax; cbn [andb].
+    + destruct Hp as [ln1 E]. rewrite E. destruct (Z.eqb_spec (snd a) 0); [lia|].
+      rewrite (app_assoc (r_nums l)), nums_text, <- app_assoc.
+      specialize (IH fu (nfw l w) w r ln1 ltac:(cbn in Hfu; lia) ltac:(now apply sep_ok_ws) ltac:(assumption) Hr).
+      destruct (forallb atom_in l).
+      * destruct IH as [ln2 E2]. rewrite E2. exists ln2. reflexivity.
+      * destruct IH as (cs' & ln2 & E2). rewrite E2. eexists _, ln2. reflexivity.
+    + destruct Hp as [ln1 E]. rewrite E. eexists _, ln1. reflexivity.
+Qed.
+
+Lemma comp_atoms_spec val l fuel w0 w r ln : (length l < fuel)%nat -> ws_ok w0 = true -> nums_in_ok l w = true -> delim r ->
+  cspec (forallb atom_in l) (read_comp_atoms fuel val (amk (w0 ++ nbody l w ++ r) ln))
+        (map (fun a => CRule Head_t_Disjunctive [] [if val then - snd a else snd a]) l) r.
+Proof.
+  apply (tlist_spec (fun fu s => read_comp_atoms fu val s) sm_comp_max (fun v => CRule Head_t_Disjunctive [] [if val then - v else v]) comp_max_eq).
+  intros fu s. cbn [read_comp_atoms]. rewrite comp_max_eq.
+  destruct (m_pos atomMax s) as [[v s1]| |] eqn:E; try reflexivity.
+  assert (Hv : 0 <= v <= atomMax).
+  { unfold m_pos in E. destruct (a_match_int false s) as [[x|] s']; [|discriminate].
+    destruct ((0 <=? x) && (x <=? atomMax)) eqn:Eb; [|discriminate]. inversion E; subst. lia. }
+  rewrite wrap32s_id by (unfold INT_MAX; unfold atomMax in Hv; lia). reflexivity.
+Qed.
+
+Lemma ext_atoms_spec l fuel w0 w r ln : (length l < fuel)%nat -> ws_ok w0 = true -> nums_in_ok l w = true -> delim r ->
+  cspec (forallb atom_in l) (read_ext_atoms fuel (amk (w0 ++ nbody l w ++ r) ln))
+        (map (fun a => CExternal (snd a) Value_t_Free) l) r.
+Proof.
+  apply (tlist_spec read_ext_atoms sm_ext_max (fun v => CExternal v Value_t_Free) ext_max_eq).
+  intros fu s. reflexivity.
+Qed.
+
+Lemma len_nums_lt l w0 w r ln : nums_in_ok l w = true -> (length l < fuel_of (amk (w0 ++ nbody l w ++ r) ln))%nat.
+Proof.
+  intros H. unfold fuel_of. cbn [rest]. rewrite !app_length.
+  assert (length l <= length (nbody l w))%nat; [|lia].
+  revert H. clear. revert w. induction l as [|a l IH]; intros w H; [cbn; lia|].
+  cbn [nums_in_ok] in H. bsplit. cbn [nbody length]. rewrite !app_length.
+  pose proof (print_nat_len (snd a) ltac:(lia)). specialize (IH w ltac:(assumption)).
+  assert (length (nbody l w) <= length (r_nums l ++ r_zero w))%nat.
+  { rewrite nums_text, app_length. lia. }
+  rewrite app_length in H3. lia.
+Qed.
+
+(* ---- keyword sections ---- *)
+Lemma skip_kw w k x ln : ws_ok w = true -> (match k with c :: _ => is_ws c = false | [] => False end) ->
+  exists ln', a_match_tok k (a_skipws (amk (w ++ k ++ x) ln)) = (true, amk x ln').
+Proof.
+  intros Hw Hk. unfold a_skipws. cbn [rest aline].
+  destruct (skipws_app (length w) w (k ++ x) ln (le_n _) Hw) as [ln' E].
+  { destruct k; [contradiction|]. exact Hk. }
+  rewrite E. exists ln'. unfold a_match_tok. cbn [rest aline].
+  rewrite firstn_app, Nat.sub_diag, firstn_all. cbn [firstn]. rewrite app_nil_r.
+  assert (Hl : list_eqb k k = true) by (apply list_eqb_eq; reflexivity). rewrite Hl.
+  rewrite skipn_app, Nat.sub_diag, skipn_all. reflexivity.
+Qed.
+
+Lemma read_compute_spec key val w l wend r ln :
+  (match key with c :: _ => is_ws c = false | [] => False end) ->
+  ws_ok w = true -> atoms_ok true l = true -> end_ok (isnil l) wend = true -> delim r ->
+  cspec (forallb atom_in l) (read_compute key val (amk (w ++ key ++ r_nums l ++ r_zero wend ++ r) ln))
+        (map (fun a => CRule Head_t_Disjunctive [] [if val then - snd a else snd a]) l) r.
+Proof.
+  intros Hk Hw Hl He Hr. unfold read_compute.
+  destruct (skip_kw w key (r_nums l ++ r_zero wend ++ r) ln Hw Hk) as [ln1 E]. rewrite E.
+  destruct (atoms_ok_in true l wend Hl ltac:(exact He)) as [Hin Hf]. cbn iota in Hf.
+  rewrite app_assoc, nums_text, <- app_assoc.
+  destruct (nl_strip (nfw l wend) (nbody l wend ++ r) ln1 Hf (nbody_nonws l wend r Hin)) as (w' & ln2 & Hw' & E2).
+  rewrite E2. change (10 =? 10) with true. cbv iota.
+  apply comp_atoms_spec; try assumption. now apply len_nums_lt.
+Qed.
+
+(* ---- external section and number of models ---- *)
+Lemma cspec_bind (b1 b2 : bool) (m : cres ast) (f : ast -> cres ast) cs1 r1 cs2 r2 :
+  cspec b1 m cs1 r1 -> (b1 = true -> forall ln, cspec b2 (f (amk r1 ln)) cs2 r2) -> cspec (b1 && b2) (cbind m f) (cs1 ++ cs2) r2.
+Proof.
+  destruct b1; cbn [andb]; intros H1 H2.
+  - destruct H1 as [ln E]. rewrite E. cbn [cbind]. specialize (H2 eq_refl ln). destruct b2.
+    + destruct H2 as [ln2 E2]. rewrite E2. exists ln2. reflexivity.
+    + destruct H2 as (cs' & ln2 & E2). rewrite E2. eexists _, ln2. reflexivity.
+  - destruct H1 as (cs' & ln & E). rewrite E. cbn [cbind]. eexists _, ln. reflexivity.
+Qed.
+
+Lemma models_spec n r ln : ws_ok (fst n) = true -> 0 <= snd n -> delim r ->
+  cspec (count_in (snd n))
+    (match m_pos sm_models_max (amk (r_num n ++ r) ln) with Ok (_, s3) => ([], Ok s3) | Err l => ([], Err l) | Fuel => ([], Fuel) end) [] r.
+Proof.
+  intros Hw Hv Hr. pose proof (m_pos_spec sm_models_max n r ln ltac:(unfold sm_models_max, INT64_MAX; lia) Hw Hv Hr) as Hp.
+  unfold count_in. change sm_models_max with UINT_MAX in *. destruct (snd n <=? UINT_MAX).
+  - destruct Hp as [ln1 E]. rewrite E. exists ln1. reflexivity.
+  - destruct Hp as [ln1 E]. rewrite E. eexists _, ln1. reflexivity.
+Qed.
+
+Lemma read_extra_spec e n r ln : ext_ok e = true -> num_ok n = true -> delim r ->
+  cspec (ext_in e && count_in (snd n)) (read_extra (amk (r_ext e ++ r_num n ++ r) ln)) (d_ext e) r.
+Proof.
+  intros He Hn Hr. destruct (num_ok_inv n Hn) as (Hs & Hw & Hv). unfold read_extra.
+  destruct e as [[[w l] z]|]; cbn [r_ext ext_ok ext_in d_ext] in *.
+  - bsplit. rewrite <- !app_assoc.
+    destruct (skip_kw w sm_kw_ext (r_nums l ++ r_zero z ++ r_num n ++ r) ln ltac:(assumption) ltac:(reflexivity)) as [ln1 E].
+    rewrite E. destruct (atoms_ok_in false l z ltac:(assumption) ltac:(cbn [andb]; assumption)) as [Hin Hf]. cbn iota in Hf.
+    rewrite <- (app_nil_r (map _ l)).
+    apply cspec_bind.
+    + rewrite app_assoc, nums_text, <- app_assoc. apply ext_atoms_spec; [now apply len_nums_lt | now apply sep_ok_ws | assumption | now apply delim_num].
+    + intros _ ln2. now apply models_spec.
+  - cbn [app andb]. unfold a_skipws. cbn [rest aline]. unfold r_num. rewrite <- app_assoc.
+    destruct (skipws_app (length (fst n)) (fst n) (print_nat (snd n) ++ r) ln (le_n _) Hw (hd_nonws_digits _ _ Hv)) as [ln1 E].
+    rewrite E. unfold a_match_tok. cbn [rest aline].
+    pose proof (print_nat_hd_digit (snd n) Hv) as Hd. pose proof (print_nat_nonempty (snd n) Hv) as Hne.
+    destruct (print_nat (snd n)) as [|d ds] eqn:Ep; [congruence|]. cbn [hd] in Hd.
+    change (length sm_kw_ext) with 1%nat. cbn [app firstn list_eqb sm_kw_ext].
+    assert (Hd69 : (d =? 69) = false) by (unfold is_digit in Hd; lia). rewrite Hd69. cbn [andb cbind].
+    pose proof (models_spec ([], snd n) r ln1 eq_refl Hv Hr) as Hm. unfold r_num in Hm. cbn [fst snd app] in Hm. rewrite Ep in Hm. cbn [app] in Hm.
+    destruct (count_in (snd n)).
+    + destruct Hm as [ln2 E2]. destruct (m_pos sm_models_max _) as [[v s3]| |]; inversion E2; subst. exists ln2. reflexivity.
+    + destruct Hm as (cs' & ln2 & E2). destruct (m_pos sm_models_max _) as [[v s3]| |]; inversion E2; subst. eexists _, ln2. reflexivity.
+Qed.
+
+(* ---- one step ---- *)
+Lemma delim_kw w k x : ws_ok w = true -> is_digit k = false -> delim (w ++ k :: x).
+Proof.
+  intros Hw Hk. destruct w as [|c w]; [exact Hk|]. cbn in Hw. bsplit. cbn. now apply ws_not_digit.
+Qed.
+
+Lemma len_flat {A} (f : A -> list Z) l : (forall a, In a l -> (1 <= length (f a))%nat) -> (length l <= length (flat_map f l))%nat.
+Proof.
+  induction l as [|a l IH]; intros H; [cbn; lia|]. cbn [flat_map length]. rewrite app_length.
+  specialize (H a (or_introl eq_refl)) as Ha. specialize (IH (fun b Hb => H b (or_intror Hb))). lia.
+Qed.
+
+Lemma rules_ok_all lead l : rules_ok lead l = true -> forall rl, In rl l -> rule_ok rl = true.
+Proof.
+  revert lead. induction l as [|a l IH]; intros lead H rl Hin; [destruct Hin|]. cbn [rules_ok] in H. bsplit.
+  destruct Hin as [->|Hin]; [assumption | eapply IH; eassumption].
+Qed.
+
+Lemma syms_front l w : syms_ok false l = true -> end_ok (negb (isnil l)) w = true ->
+  syms_in_ok l w = true /\ sep_ok (sfw l w) = true.
+Proof.
+  intros H Hw. destruct l as [|y l].
+  - cbn in *. split; [reflexivity | assumption].
+  - destruct (syms_ok_in false (y :: l) w H Hw) as [[Hi Hf]|[C _]]; [|discriminate]. split; assumption.
+Qed.
+
+Lemma step_spec (o : opts) lead s r ln : step_ok lead s = true -> delim r ->
+  cspec (step_in (claspExt o) s) (do_parse o (amk (r_step s ++ r) ln)) (d_step s) r.
+Proof.
+  unfold step_ok. intros H Hr. bsplit. unfold do_parse, r_step, step_in, d_step. rewrite <- !app_assoc.
+  destruct (syms_front _ _ ltac:(eassumption) ltac:(eassumption)) as [Hsin Hsf].
+  cbn [cbind]. cbn [app].
+  assert (HB : forall k x, is_digit (hd 0 (k ++ x)) = false -> forall w, ws_ok w = true -> delim (w ++ k ++ x)).
+  { intros k x Hk w Hw. destruct (k ++ x) as [|c y]; [rewrite app_nil_r; destruct w as [|c w]; [exact I|cbn in Hw; bsplit; cbn; now apply ws_not_digit]|]. now apply delim_kw. }
+  assert (Hd4 : delim (r_ext (s_ext s) ++ r_num (s_models s) ++ r)).
+  { destruct (s_ext s) as [[[w l] z]|]; cbn [r_ext ext_ok] in *.
+    - bsplit. rewrite <- !app_assoc. apply HB; [reflexivity | assumption].
+    - cbn [app]. now apply delim_num. }
+  set (R3 := s_bmw s ++ sm_kw_bminus ++ r_nums (s_bminus s) ++ r_zero (s_bmend s) ++ r_ext (s_ext s) ++ r_num (s_models s) ++ r) in *.
+  set (R2 := s_bpw s ++ sm_kw_bplus ++ r_nums (s_bplus s) ++ r_zero (s_bpend s) ++ R3) in *.
+  assert (Hd3 : delim R3) by (apply HB; [reflexivity | assumption]).
+  assert (Hd2 : delim R2) by (apply HB; [reflexivity | assumption]).
+  eapply (cspec_bind _ _ _ _ _ _ _ r). 
+  { apply (read_rules_spec o (s_rules s) lead _ 0 (s_rend s) (flat_map r_sym (s_syms s) ++ r_zero (s_send s) ++ R2) ln).
+    - unfold fuel_of. cbn [rest]. rewrite app_length.
+      pose proof (len_flat r_rule (s_rules s)) as Hl. 
+      assert (length (s_rules s) <= length (flat_map r_rule (s_rules s)))%nat; [|lia].
+      apply Hl. intros a Ha. unfold r_rule. rewrite !app_length.
+      pose proof (print_nat_len (rule_type a) ltac:(pose proof (rule_type_nonneg a (rules_ok_all _ _ ltac:(eassumption) a Ha)); lia)). lia.
+    - assumption.
+    - assumption.
+    - rewrite app_assoc, syms_text, <- app_assoc. now apply delim_sep. }
+  intros _ ln1.
+  eapply (cspec_bind _ _ _ _ _ _ _ r).
+  { rewrite app_assoc, syms_text, <- app_assoc. apply read_symbols_spec; try assumption; [|now apply sep_ok_ws].
+    unfold fuel_of. cbn [rest]. rewrite !app_length.
+    assert (length (s_syms s) <= length (sfw (s_syms s) (s_send s)) + length (sbody (s_syms s) (s_send s)))%nat; [|lia].
+    rewrite <- app_length, <- syms_text, app_length.
+    pose proof (len_flat r_sym (s_syms s)) as Hl.
+    assert (length (s_syms s) <= length (flat_map r_sym (s_syms s)))%nat; [|lia].
+    apply Hl. intros a _. unfold r_sym. rewrite app_length. cbn [length]. lia. }
+  intros _ ln2.
+  eapply (cspec_bind _ _ _ _ _ _ _ r).
+  { unfold R2. apply read_compute_spec; try assumption. reflexivity. }
+  intros _ ln3.
+  eapply (cspec_bind _ _ _ _ _ _ _ r).
+  { unfold R3. apply read_compute_spec; try assumption. reflexivity. }
+  intros _ ln4.
+  rewrite <- (andb_true_r (ext_in (s_ext s) && count_in (snd (s_models s)))).
+  eapply (cspec_bind _ _ _ _ _ _ _ r).
+  { apply read_extra_spec; assumption. }
+  intros _ ln5. exists ln5. reflexivity.
+Qed.
